@@ -259,6 +259,10 @@ func refCall(name string, vs []any) (any, error) {
 	}
 	if isFixed || refFixedMode {
 		r := fx[0]
+		const one = 10000 // D4
+		viaFloat := func(f func(float64) float64) (any, error) {
+			return f64.From[fixed.D4](f(f64.As[fixed.D4, float64](r))), nil
+		}
 		switch name {
 		case "abs":
 			if r < 0 {
@@ -272,6 +276,38 @@ func refCall(name string, vs []any) (any, error) {
 			if fx[1] < r {
 				r = fx[1]
 			}
+		case "floor": // the greatest whole number <= r (NOT truncation: floor(-1.5) = -2)
+			q := r / one
+			if r < 0 && r%one != 0 {
+				q--
+			}
+			r = q * one
+		case "ceil": // the least whole number >= r
+			q := r / one
+			if r > 0 && r%one != 0 {
+				q++
+			}
+			r = q * one
+		case "round": // nearest whole number, halves away from zero
+			if r >= 0 {
+				r = (r + one/2) / one * one
+			} else {
+				r = -((-r + one/2) / one * one)
+			}
+		case "sqrt":
+			return viaFloat(math.Sqrt)
+		case "cbrt":
+			return viaFloat(math.Cbrt)
+		case "exp":
+			return viaFloat(math.Exp)
+		case "exp2":
+			return viaFloat(math.Exp2)
+		case "log":
+			return viaFloat(math.Log)
+		case "log10":
+			return viaFloat(math.Log10)
+		case "log1p":
+			return f64.From[fixed.D4](math.Log(f64.As[fixed.D4, float64](r + one))), nil
 		}
 		return r, nil
 	}
@@ -280,9 +316,42 @@ func refCall(name string, vs []any) (any, error) {
 		return math.Abs(nums[0]), nil
 	case "max":
 		return math.Max(nums[0], nums[1]), nil
-	default:
+	case "min":
 		return math.Min(nums[0], nums[1]), nil
+	case "floor":
+		return math.Floor(nums[0]), nil
+	case "ceil":
+		return math.Ceil(nums[0]), nil
+	case "round":
+		return math.Round(nums[0]), nil
+	case "sqrt":
+		return math.Sqrt(nums[0]), nil
+	case "cbrt":
+		return math.Cbrt(nums[0]), nil
+	case "exp":
+		return math.Exp(nums[0]), nil
+	case "exp2":
+		return math.Exp2(nums[0]), nil
+	case "log":
+		return math.Log(nums[0]), nil
+	case "log10":
+		return math.Log10(nums[0]), nil
+	default: // log1p
+		return math.Log(nums[0] + 1), nil
 	}
+}
+
+// truthy is the condition of if(): a number other than zero, or true
+func truthy(v any) (bool, error) {
+	switch t := v.(type) {
+	case f64.Int[fixed.D4]:
+		return t != 0, nil
+	case float64:
+		return t != 0, nil
+	case bool:
+		return t, nil
+	}
+	return false, fmt.Errorf("not a condition")
 }
 
 var refFixedMode bool
@@ -307,6 +376,20 @@ func refEval(a *node, ops map[string]*eval.Operator, lit func(string) (any, erro
 	case 5:
 		return refEval(a.l, ops, lit)
 	case 4:
+		if a.name == "if" { // only the chosen branch is evaluated
+			c, err := refEval(a.args[0], ops, lit)
+			if err != nil {
+				return nil, err
+			}
+			t, err := truthy(c)
+			if err != nil {
+				return nil, err
+			}
+			if t {
+				return refEval(a.args[1], ops, lit)
+			}
+			return refEval(a.args[2], ops, lit)
+		}
 		vs := make([]any, len(a.args))
 		for i, x := range a.args {
 			v, err := refEval(x, ops, lit)
@@ -353,10 +436,25 @@ func genNumAST(r *hx.Rand, depth int) *node {
 	case 1:
 		return &node{kind: 5, l: genNumAST(r, depth-1)}
 	case 2: // a call: its argument text is parsed again from its own first byte
-		if r.Bool() {
+		switch r.Intn(4) {
+		case 0:
 			return &node{kind: 4, name: "abs", args: []*node{genNumAST(r, depth-2)}}
+		case 1:
+			return &node{kind: 4, name: []string{"max", "min"}[r.Intn(2)], args: []*node{genNumAST(r, depth-2), genNumAST(r, depth-2)}}
+		case 2: // the rounding functions (negative and half-way arguments matter) and the ones computed through float64
+			nm := []string{"floor", "ceil", "round", "floor", "ceil", "round", "sqrt", "cbrt", "exp", "exp2", "log", "log10", "log1p"}[r.Intn(13)]
+			arg := genNumAST(r, depth-2)
+			if r.Chance(1, 3) { // k + 1/2 and other fractions, both signs
+				t := fmt.Sprintf("%d.%s", r.Intn(4), []string{"5", "5", "25", "75", "4999", "5001", "0"}[r.Intn(7)])
+				arg = &node{kind: 0, text: t}
+				if r.Bool() {
+					arg = &node{kind: 1, text: t, un: "-"}
+				}
+			}
+			return &node{kind: 4, name: nm, args: []*node{arg}}
+		default:
+			return &node{kind: 4, name: "if", args: []*node{genNumAST(r, depth-2), genNumAST(r, depth-2), genNumAST(r, depth-2)}}
 		}
-		return &node{kind: 4, name: []string{"max", "min"}[r.Intn(2)], args: []*node{genNumAST(r, depth-2), genNumAST(r, depth-2)}}
 	default:
 		o := binOps[r.Intn(len(binOps))]
 		if o.sym == "^" && r.Chance(2, 3) {
